@@ -9,6 +9,9 @@
 (* MC_SchemaSpace checks class \in Defects(file) for every injection of    *)
 (* every reachable valid file, and the tour demands that NewFile rejects   *)
 (* it (unresolvable references: only without AllowUnresolvable).           *)
+(* RangePositionCases adds, for ranges, the whole neighbourhood: every     *)
+(* relative position of two ranges, the invalid ones with their class, the *)
+(* valid ones (class "": ranges apart or merely touching) to be accepted.  *)
 (***************************************************************************)
 EXTENDS SchemaBuild
 
@@ -222,8 +225,51 @@ ImportInjections(f) ==
   ELSE {Inj("type_of_file_not_imported", "notimported",
             [f EXCEPT !.deps = <<>>, !.imps = [k \in Idx(f.imps) |-> [f.imps[k] EXCEPT !.vis = FALSE]]])}
 
+\* ---- every relative position of two ranges (C35: overlapping ranges are rejected, ranges that merely touch are not)
+\* A fixed range A and every range B with ends on a grid around A's ends (disjoint, touching on either side, sharing
+\* exactly A's first / last number, crossing either end, nested, equal, containing, single numbers), for reserved x
+\* reserved and extension x extension (both list orders), reserved x extension and extension x reserved.  The
+\* specification decides overlap on inclusive ends (SchemaValid!RangesOverlap / CrossOverlap); class "" says that the
+\* two ranges are apart and the file is still valid -- it must be accepted.
+PosA == <<400, 410>>                                              \* end exclusive: numbers 400..409
+PosGrid == {395, 399, 400, 401, 405, 409, 410, 411, 415}
+PosB == {b \in PosGrid \X PosGrid : b[1] < b[2]}
+EnumPosA == <<50, 60>>                                            \* end inclusive: numbers 50..60
+EnumPosGrid == {45, 49, 50, 51, 55, 59, 60, 61, 65}
+EnumPosB == {b \in EnumPosGrid \X EnumPosGrid : b[1] <= b[2]}
+\* the ranges of a message do not interact with anything else in it: one bare message per file is enough (quick tier)
+PositionHost(f, i) == /\ f.msgs[i].fields = <<>> /\ f.msgs[i].rr = <<>> /\ f.msgs[i].xr = <<>> /\ ~f.msgs[i].mapentry /\ ~f.msgs[i].mset
+                      /\ (Thorough \/ (Len(f.msgs) = 1 /\ f.enums = <<>> /\ f.deps = <<>> /\ f.svcs = <<>> /\ ~f.msgs[i].dep /\ f.msgs[i].feat = NoFS))
+EnumPositionHost(f, i) == /\ f.enums[i].rr = <<>> /\ Len(f.enums[i].vals) = 1 /\ f.enums[i].vals[1].num = 0
+                          /\ (Thorough \/ (Len(f.enums) = 1 /\ f.msgs = <<>> /\ f.deps = <<>> /\ f.enums[i].feat = NoFS))
+RangePositionCases(f) ==
+  UNION {
+    IF ~PositionHost(f, i) THEN {}
+    ELSE UNION {
+      LET same == RangesOverlap(<<PosA, b>>, FALSE)
+          cross == CrossOverlap(<<PosA>>, <<b>>)
+      IN {Inj("reserved_ranges_position", IF same THEN "reserved_overlap" ELSE "", [f EXCEPT !.msgs[i].rr = <<PosA, b>>]),
+          Inj("reserved_ranges_position", IF same THEN "reserved_overlap" ELSE "", [f EXCEPT !.msgs[i].rr = <<b, PosA>>])}
+         \cup (IF f.syntax = "proto3" THEN {}
+               ELSE {Inj("extension_ranges_position", IF same THEN "extension_overlap" ELSE "", [f EXCEPT !.msgs[i].xr = <<PosA, b>>]),
+                     Inj("extension_ranges_position", IF same THEN "extension_overlap" ELSE "", [f EXCEPT !.msgs[i].xr = <<b, PosA>>]),
+                     Inj("reserved_extension_position", IF cross THEN "reserved_extension_overlap" ELSE "",
+                         [f EXCEPT !.msgs[i].rr = <<PosA>>, !.msgs[i].xr = <<b>>]),
+                     Inj("extension_reserved_position", IF cross THEN "reserved_extension_overlap" ELSE "",
+                         [f EXCEPT !.msgs[i].xr = <<PosA>>, !.msgs[i].rr = <<b>>])})
+      : b \in PosB}
+    : i \in Idx(f.msgs)}
+  \cup UNION {
+    IF ~EnumPositionHost(f, i) THEN {}
+    ELSE UNION {
+      LET same == RangesOverlap(<<EnumPosA, b>>, TRUE)
+      IN {Inj("enum_reserved_ranges_position", IF same THEN "enum_reserved_overlap" ELSE "", [f EXCEPT !.enums[i].rr = <<EnumPosA, b>>]),
+          Inj("enum_reserved_ranges_position", IF same THEN "enum_reserved_overlap" ELSE "", [f EXCEPT !.enums[i].rr = <<b, EnumPosA>>])}
+      : b \in EnumPosB}
+    : i \in Idx(f.enums)}
+
 Injections(f) == FileInjections(f) \cup MsgInjections(f) \cup FieldInjections(f) \cup EnumInjections(f)
-                 \cup ExtInjections(f) \cup SvcInjections(f) \cup ImportInjections(f)
+                 \cup ExtInjections(f) \cup SvcInjections(f) \cup ImportInjections(f) \cup RangePositionCases(f)
 
 \* classes that AllowUnresolvable turns into placeholders instead of errors
 UnresolvableClasses == {"unresolved", "import_unresolved"}
